@@ -92,7 +92,9 @@ prop(
     title="Launch fidelity: argv, environment, working directory and program resolution",
     level="exploration",
     engine="real",
-    campaigns=[dict(bin="C03", random=dict(quick=6000, thorough=120000))],
+    campaigns=[dict(bin="C03", random=dict(quick=6000, thorough=120000)),
+               # Windows half on engine W2 (src/winsim): the _WIN32 build of the whole library on the in-memory Win32 simulator
+               dict(bin="C03win", sweep=True, random=dict(quick=20000, thorough=400000), workers=4)],
     level_text=("Each generated case starts the scripted child through the real reproc_start and compares the child's own "
                 "entry snapshot (argv, envp as a sequence, cwd identity, executed image) with what was requested; parent "
                 "environ, cwd depth (to beyond PATH_MAX), program naming (absolute, ./x, a/b/x, ../x, PATH) and a decoy "
@@ -340,7 +342,9 @@ prop(
     title="Poll reports exactly the events that are true and nothing else",
     level="exploration",
     engine="vtime",
-    campaigns=[dict(bin="C09", random=dict(quick=8000, thorough=100000))],
+    campaigns=[dict(bin="C09", random=dict(quick=8000, thorough=100000)),
+               # Windows half on engine W2 (src/winsim): the _WIN32 build of the whole library on the in-memory Win32 simulator
+               dict(bin="C09win", sweep=True, random=dict(quick=20000, thorough=400000), workers=4)],
     level_text=("1-5 sources (NULL included) with every interest mask; each stream's state is constructed and acknowledged before the poll (not a pipe / open idle / data pending from 1 byte to a "
                 "full pipe / closed by the child / closed by the parent; stdin empty / full / reader gone / closed by the parent; child running / exited / reaped), so with timeout 0 nothing depends on "
                 "timing; some cases poll with a finite or infinite timeout and a scripted later event. Oracle: events subset of interests, NULL sources silent, return value = number of sources with events, "
@@ -401,7 +405,9 @@ prop(
     title="Nonblocking mode never blocks; blocking calls wait only for the child",
     level="exploration",
     engine="vtime",
-    campaigns=[dict(bin="C17", random=dict(quick=10000, thorough=100000))],
+    campaigns=[dict(bin="C17", random=dict(quick=10000, thorough=100000)),
+               # Windows half on engine W2 (src/winsim): the _WIN32 build of the whole library on the in-memory Win32 simulator
+               dict(bin="C17win", sweep=True, random=dict(quick=20000, thorough=400000), workers=4)],
     level_text=("Reads (stdout/stderr) and writes (stdin) with the pipe state constructed beforehand (empty, partly filled, full = exactly 64 KiB in page-sized writes, far side closed by the child or by its "
                 "exit), sizes 1 B - 1 MiB, nonblocking on and off, a child that is idle for ever, acts at scripted virtual times (writes, reads in page multiples, closes, exits) or is already gone; start-up "
                 "input of 0, 1, 4096, 65535, 65536, 65537 and 2^20 bytes with a child that reads at once, late or never. The virtual-time scheduler's blocking-episode log is the oracle: no episode and "
@@ -510,6 +516,9 @@ W2_WHAT = {
     "C04": "Oracle: a start that fails returns the injected error (-8 for an allocation), leaves no process, and a second start on the same handle succeeds; success means CreateProcessW succeeded.",
     "C05": "Oracle: the simulator's handle and allocation ledger after destroy - every handle the library created is closed exactly once, none of the caller's (std handles, user handles, the handle behind a FILE) is ever closed, no use after close, no block left.",
     "C06": "Oracle: terminate sends exactly one CTRL_BREAK_EVENT to the child's own process group (and the child was created with its own group), kill calls TerminateProcess once on the child's handle with 137, nothing is sent once a status was returned; destroy does not return while the child runs.",
+    "C03": "Oracle: the command line handed to CreateProcessW, split by the documented rules (both CommandLineToArgvW and the 2008+ C runtime variant), gives back exactly the generated arguments (alphabet of spaces, tabs, quotes, backslashes, non-ASCII, empty); the environment block is the parent's entries then the extras; the working directory is the one requested.",
+    "C09": "Oracle: every poll result - events within the interests, count equal to the sources with events, no deadline event without a deadline, a reported stream does not make the read report would-block, the closed-pipe error once both output streams have reported end-of-stream, nothing for a source without a process, exit reported for an exited child.",
+    "C17": "Oracle: before the child says anything a non-blocking read returns the would-block error without passing time; a blocking read returns exactly what the child writes when the wait begins; a 70 000-byte flood of stdin is accepted up to the pipe's 65 536 bytes and then refused (non-blocking) or delivered completely while the child reads whenever the writer waits (blocking); start-up input of 65 535 / 65 536 / 65 537 / 70 000 / 200 000 bytes is delivered completely or start fails with the would-block error, never blocks.",
     "C10": "Oracle: hStdInput / hStdOutput / hStdError given to CreateProcessW against the redirect settings - the right end of a library pipe, the parent's own std handle (NUL if it has none), NUL or the path opened with the access of the stream's direction, the user's handle, the handle behind the FILE, stdout's handle for stderr.",
     "C11": "Oracle: the PROC_THREAD_ATTRIBUTE_HANDLE_LIST holds exactly the three stream handles and the exit handle, each once and inheritable at creation; bInheritHandles with an explicit list; the parent's pipe ends and everything else the library created are not inheritable.",
 }
@@ -524,6 +533,9 @@ W2_ESSENTIAL = {
     "C04": ["alloc-fault", "api-fault", "fault-fired", "restarted-after-failure"],
     "C05": ["alloc-fault", "api-fault", "fault-fired", "destroy-while-running"],
     "C06": ["terminated", "killed", "destroy-while-running"],
+    "C03": ["start-succeeded"],
+    "C09": ["poll-after-eof", "output-piped"],
+    "C17": ["blocking-probe", "stdin-flood", "startup-input-beyond-capacity"],
     "C10": ["output-piped", "start-succeeded"],
     "C11": ["start-succeeded", "restarted-after-failure"],
 }
